@@ -24,18 +24,18 @@ import (
 // Replies are captured at the transport and parsed schema-less.
 
 type rawReq struct {
-	opid    string
-	tag     string
-	kind    string // valid | unknown-method | malformed | oneway
-	method  string
-	outcome string
-	frame   []byte // complete request frame
-	conn    int
-	wantType thrift.TMessageType
-	wantApp  int32
+	opid       string
+	tag        string
+	kind       string // valid | unknown-method | malformed | oneway
+	method     string
+	outcome    string
+	frame      []byte // complete request frame
+	conn       int
+	wantType   thrift.TMessageType
+	wantApp    int32
 	wantFields []int16
-	replies [][]byte
-	sent    bool
+	replies    [][]byte
+	sent       bool
 }
 
 func init() { Register("server", serverHarness) }
@@ -438,12 +438,14 @@ type recStream struct {
 	site int
 }
 
-func (r *recStream) Open() error                        { return nil }
-func (r *recStream) IsOpen() bool                       { return true }
-func (r *recStream) Close() error                       { return nil }
-func (r *recStream) Read(p []byte) (int, error)         { return 0, thrift.NewTTransportException(thrift.END_OF_FILE, "eof") }
-func (r *recStream) Flush(ctx context.Context) error    { simrt.Pre(r.site); return nil }
-func (r *recStream) RemainingBytes() uint64             { return 0 }
+func (r *recStream) Open() error  { return nil }
+func (r *recStream) IsOpen() bool { return true }
+func (r *recStream) Close() error { return nil }
+func (r *recStream) Read(p []byte) (int, error) {
+	return 0, thrift.NewTTransportException(thrift.END_OF_FILE, "eof")
+}
+func (r *recStream) Flush(ctx context.Context) error { simrt.Pre(r.site); return nil }
+func (r *recStream) RemainingBytes() uint64          { return 0 }
 func (r *recStream) Write(p []byte) (int, error) {
 	simrt.Pre(r.site)
 	r.buf = append(r.buf, p...)
